@@ -64,6 +64,12 @@ static double pick_double(vh_rng_t * rng) {
     }
 }
 
+/* the units table belongs to the application (argument of SCPI_Init): names of any length are legal, compound suffixes too */
+static const scpi_unit_def_t user_units[] = {
+    { "REV/MIN", SCPI_UNIT_REVOLUTION, 1 }, { "OHM.CM", SCPI_UNIT_OHM, 1 }, { "DBUV/M", SCPI_UNIT_DECIBEL, 1 }, { "KILOGRAMFORCE", SCPI_UNIT_NEWTON, 1 },
+    { "V", SCPI_UNIT_VOLT, 1 }, { "MICROSIEMENS.CM-1", SCPI_UNIT_SIEMENS, 1 }, { "X", SCPI_UNIT_UNITLESS, 1 }, { "ABCDEF", SCPI_UNIT_HENRY, 1 }, { "ABCDEFG", SCPI_UNIT_FARAD, 1 },
+    SCPI_UNITS_LIST_END
+};
 /* ---- phase 0: SCPI_NumberToStr, every unit and special name, L = 0..40 --------------------- */
 static int n_units(void) { int n = 0; while (scpi_units_def[n].name) n++; return n; }
 static uint64_t p0_count(int thorough) { return vh_scaled(thorough ? 60000 : 3000); }
@@ -78,6 +84,7 @@ static void p0_run(uint64_t idx, vh_rng_t * rng) {
         num.unit = SCPI_UNIT_NONE; num.base = 10;
     } else {
         const scpi_unit_def_t * u = &scpi_units_def[(idx / 7 + vh_below(rng, (uint32_t) nu)) % (uint64_t) nu];
+        if (idx % 3 == 1) { v->ctx->units = user_units; u = &user_units[vh_below(rng, 9)]; vh_count("number.user_units_table", 1); }
         num.special = FALSE; num.content.value = pick_double(rng);
         num.unit = vh_chance(rng, 1, 8) ? SCPI_UNIT_NONE : u->unit; num.base = 10;
     }
@@ -85,7 +92,7 @@ static void p0_run(uint64_t idx, vh_rng_t * rng) {
     n = SCPI_NumberToStr(v->ctx, scpi_special_numbers_def, &num, big, sizeof big);
     vh_case_desc("SCPI_NumberToStr special=%d tag=%d value=%a unit=%d full=\"%s\"", (int) num.special, num.special ? (int) num.content.tag : 0, num.special ? 0.0 : num.content.value, (int) num.unit, big);
     if (n != strlen(big)) vh_violation("C15:returned-length-mismatch:SCPI_NumberToStr", "len=160 returned %zu for \"%s\"", n, big);
-    for (L = 0; L <= 40; L++) {
+    for (L = 0; L <= 48; L++) {
         cell_t c = cell_new(L); size_t r; char what[200];
         vh_sub = L;
         r = SCPI_NumberToStr(v->ctx, scpi_special_numbers_def, &num, c.buf, L);
@@ -216,6 +223,6 @@ int main(int argc, char ** argv) {
         { "IntToStr", p3_count, p3_run },
     };
     vh_require("post.fits"); vh_require("post.exact"); vh_require("post.truncated");
-    vh_require("number.with_unit"); vh_require("number.special"); vh_require("copytext.truncated"); vh_require("copytext.fits");
+    vh_require("number.with_unit"); vh_require("number.user_units_table"); vh_require("number.special"); vh_require("copytext.truncated"); vh_require("copytext.fits");
     return vh_main(argc, argv, "C15", phases, 4);
 }
